@@ -72,6 +72,10 @@ type l3Case struct {
 	Pool    bool `json:"websocket_pool,omitempty"`
 	Admin   bool `json:"admin_api,omitempty"`
 	Plugins bool `json:"plugins,omitempty"` // logging, request-id, headers
+	// UptimeMs: the process has been up at least this long when the request is sent and the signal
+	// delivered (0 = as soon as it serves). "Whatever the timing": a shutdown budget counts from the
+	// signal, not from anything earlier in the life of the process.
+	UptimeMs int `json:"uptime_ms,omitempty"`
 }
 
 // halfSent is ready at once for the half-sent-head point (nothing can have arrived at the backend
@@ -175,6 +179,29 @@ func genL3SecondDuringDrain(rt *rapid.T) l3Case {
 	return c
 }
 
+// genL3Aged draws a case in which the process is older than its whole shutdown timeout when the signal
+// arrives, with a request in flight that the backend finishes well inside the timeout.
+func genL3Aged(rt *rapid.T) l3Case {
+	c := genL3(rt)
+	for i := 0; i < 8 && c.Point == "idle"; i++ {
+		c = genL3(rt)
+	}
+	if c.Point == "idle" {
+		return c
+	}
+	c.ShutdownOmitted, c.ShutdownS, c.Over = false, 2, false
+	c.UptimeMs = c.ShutdownS*1000 + rapid.SampledFrom([]int{100, 300, 1000}).Draw(rt, "aged_beyond_ms")
+	if c.Point == "half-sent-head" {
+		c.ReleaseMs = rapid.SampledFrom([]int{20, 200, 500}).Draw(rt, "aged_rest_after_ms")
+	} else {
+		c.ReleaseMs = rapid.SampledFrom([]int{20, 200, 600, 1000}).Draw(rt, "aged_release_ms")
+	}
+	if c.Second != "" && c.SecondMs > c.ReleaseMs {
+		c.SecondMs = c.ReleaseMs / 2
+	}
+	return c
+}
+
 func (c l3Case) yaml(port, metricsPort, adminPort int, backendURL string) string {
 	var b strings.Builder
 	if c.ShutdownOmitted {
@@ -274,6 +301,7 @@ func runL3(t testing.TB, c l3Case) (r l3Result) {
 		be.Fallback(&lab.RespScript{Status: 200, Framing: "cl", Body: []byte("ok"), BodyLen: 2, BarrierAfter: -1})
 	}
 	ports := lab.FreePorts(3)
+	startedAt := time.Now()
 	h := lab.StartHelios(t, c.yaml(ports[0], ports[1], ports[2], be.URL()))
 	defer h.Kill()
 	defer func() { r.Log = h.Log() }()
@@ -290,6 +318,9 @@ func runL3(t testing.TB, c l3Case) (r l3Result) {
 		return
 	}
 	addr := fmt.Sprintf("127.0.0.1:%d", ports[0])
+	if d := time.Duration(c.UptimeMs)*time.Millisecond - time.Since(startedAt); d > 0 {
+		time.Sleep(d)
+	}
 	if c.Active {
 		// the probe round launched at start-up has reached the backend (and hangs there when scripted)
 		deadline := time.Now().Add(stepBudget)
@@ -468,19 +499,23 @@ func judgeResponse(c l3Case, out *lab.RawResponse, body []byte) string {
 func TestC19Signals(t *testing.T) {
 	sub := lab.Sub(l3Name, "rapid: the real helios binary (timeouts.shutdown 2-4 s, one scripted raw TCP backend, optional metrics listener, every further optional feature on or off by draw with the values of the shipped sample file - rate_limit, circuit_breaker, passive checks, websocket_pool, admin_api (1 in 4), a plugin chain [logging, request-id, headers] -, active checks off / interval 2-3 s answered / interval 10 s timeout 9 s with probes that hang in the backend) receives SIGTERM or SIGINT "+
 		"at a drawn point: no request in flight; a request of which only the request line and one header field have been sent (the rest of the head follows 0-500 ms after the signal, the backend answers at once); a request that reached the backend which has not answered (released 0-(timeout-1) s after the signal); a response of whose first body part (1 B-64 KiB) the client has read everything the proxy must have passed on (all of it when chunked, all but 8 KiB when CL-framed) while the backend waits on a barrier before part 2 (1 B-200 kB; CL or chunked; status 200/201/404); "+
-		"1 in 7 requests is never finished by the backend (outlasts the shutdown timeout); 1 in 3 cases sends a second SIGTERM/SIGINT 0-100 ms later, during the shutdown, and in two of every six cases a second signal arrives by construction while the request is still being drained (backend finishes >= 200 ms after the first signal or never); "+
+		"1 in 7 requests is never finished by the backend (outlasts the shutdown timeout); 1 in 3 cases sends a second SIGTERM/SIGINT 0-100 ms later, during the shutdown, and in two of every six cases a second signal arrives by construction while the request is still being drained (backend finishes >= 200 ms after the first signal or never), and in one of every six the process has been up for longer than its whole shutdown timeout (2 s + 0.1-1 s) when the signal arrives, the request being finished 20-1000 ms later; "+
 		"oracle: the in-flight request is received complete and exact, the process exits within shutdown timeout + 2 s with status 0 (status not asserted for the outlasting request) and no panic trace, the backend sees nothing after the exit; non-trivial = a request is in flight when the signal arrives")
 	sub.NontrivialFloor(0.60)
 	sub.Floor("second-signal-during-drain", 0.25)
+	sub.Floor("uptime-beyond-shutdown-timeout", 0.10)
 	lab.Assume("L3: loopback only; a request counts as in flight once the scripted backend has parsed it; 'remaining duration below the shutdown timeout' is generated with a 1 s margin; the exit bound is shutdown timeout + 2 s of real time (normal: milliseconds)")
 	const par = 6
 	// 4 / 50 batches x par binaries: 24 quick, 300 thorough (before sharding)
 	lab.Check(t, sub, 4, 50, func(rt *rapid.T) {
 		cases := make([]l3Case, par)
 		for i := range cases {
-			if i%3 == 0 { // two of the six by construction
+			switch {
+			case i%3 == 0: // two of the six by construction
 				cases[i] = genL3SecondDuringDrain(rt)
-			} else {
+			case i == 1: // one of the six: a process older than its shutdown timeout
+				cases[i] = genL3Aged(rt)
+			default:
 				cases[i] = genL3(rt)
 			}
 		}
@@ -517,6 +552,9 @@ func TestC19Signals(t *testing.T) {
 			}
 			if c.duringDrain() {
 				labels = append(labels, "second-signal-during-drain")
+			}
+			if c.UptimeMs > c.ShutdownS*1000 && c.Point != "idle" {
+				labels = append(labels, "uptime-beyond-shutdown-timeout")
 			}
 			if c.Active {
 				labels = append(labels, "active-checks")
